@@ -319,6 +319,11 @@ def cases(tier, seed):   # noqa: F811
     for r in range(reps):
         for sc in ASSOC_SCENARIOS:
             yield dict(assoc=sc, seed=seed * 31 + r, convo='-', cut=None, ending=None, kill=None)
+            if sc.startswith('server:'):
+                # the same while other associations of the same entity come and go: what they
+                # do to THEIR timers and tables must not keep this one alive
+                yield dict(assoc=sc, traffic=True, seed=seed * 31 + r, convo='-', cut=None,
+                           ending=None, kill=None)
 
 
 _orig_run_case = run_case
@@ -337,10 +342,11 @@ def _assoc_case(case):
     sim = world.sim
     viol = []
     ADDR = ('peerhost', 104)
-    TMO = 15.0
+    TMO = 40.0 if case.get('traffic') else 15.0
 
     def v(rule, detail=''):
-        viol.append({'sig': 'C13 %s scenario=%s' % (rule, sc),
+        viol.append({'sig': 'C13 %s scenario=%s%s' % (rule, sc,
+                                                     ' with-other-associations' if case.get('traffic') else ''),
                      'detail': '%s\ncase %r\nblocked %r\nhandler errors %r' % (
                          detail, case, sim.blocked_report(), world.handler_errors[:1])})
     try:
@@ -475,8 +481,37 @@ def _assoc_case(case):
                 except _peers.PeerClosed:
                     pass
             world.spawn(run_noclose, 'peer', role='peer')
+            if case.get('traffic'):
+                def visitor(delay, mid):
+                    def script_v(pv):
+                        sim.sleep(delay)
+                        q = pv.associate()
+                        if isinstance(q, dict) and q['kind'] == 'A-ASSOCIATE-AC':
+                            pv.send_message(1, {0x0002: rc.VERIFICATION, 0x0100: 0x0030,
+                                                0x0110: mid, 0x0800: 0x0101})
+                            pv.read_message(timeout=30.0)
+                            pv.release()
+                    pv = _peers.ScriptedRequestor(sim, world.net, ADDR,
+                                                  ((1, rc.VERIFICATION, (rc.IMPLICIT_LE,)),),
+                                                  script=script_v)
+                    world.spawn(pv.run, 'visitor%d' % mid, role='peer')
+                visitor(2.0 + (case['seed'] % 3), 21)
+                visitor(5.0 + (case['seed'] % 4), 22)
             bound = 2 * TMO + ARTIM + 3.0
-            sim.run_for(bound)
+            if what != 'silent-after-ac':
+                # where the standard arms ARTIM it is ARTIM that ends the waiting, not the
+                # (longer) time-out of the application layer
+                sim.run_for(ARTIM + 8.0)
+                first = [s_ for s_ in world.net.sockets if s_.name.startswith('srv')]
+                if not first:
+                    v('connection-never-handled')
+                elif not first[0].closed:
+                    v('artim-did-not-end-the-waiting',
+                      'ARTIM is %.0f s; %.0f s after the connection the library still holds it'
+                      % (ARTIM, ARTIM + 8.0))
+                sim.run_for(bound - ARTIM - 8.0)
+            else:
+                sim.run_for(bound)
             acc = world.acceptor_tasks
             if not acc:
                 v('connection-never-handled')
